@@ -44,9 +44,9 @@ env = dict(os.environ, OCV_REPO=str(tmp))
 r = subprocess.run(['./check', pid, 'quick'], cwd=VERIF, env=env, capture_output=True, text=True)
 shutil.rmtree(tmp)
 viol = [l for l in r.stdout.splitlines() if l.startswith('VIOLATION')]
-ded = sorted({re.sub(r'-[0-9a-f]{10}\.py.*$', '', l.split('replay=')[1].split('/')[-1]) for l in viol
-              if re.search(r'replay=\S*(optree_|optree\.|optree/)', l)})
-bnd = sorted({re.sub(r'-[0-9a-f]{10}\.py.*$', '', l.split('replay=')[1].split('/')[-1]) for l in viol} - set(ded))
+names = sorted({re.sub(r'-[0-9a-f]{10}\.py.*$', '', l.split('replay=')[1].split('/')[-1]) for l in viol})
+bnd = [x for x in names if re.match(r'^C\d\d-C\d\d\.', x)]          # clause keys of bounded monitors: Cxx-Cxx.<clause>
+ded = [x for x in names if x not in bnd]                          # everything else is a named proof obligation
 meta = {
     'id': name,
     'property': pid,
